@@ -182,6 +182,21 @@ class Proto:
                     force += nz
         return needs, force
 
+    def gate_edges_exclusive(self):
+        """like gate_edges, but only edges of switches that test ONE of the two conditions (a merged
+        `forced || needs` boolean tests both and is left alone)"""
+        needs, force = self.gate_edges()
+        both = {e[0] for e in needs} & {e[0] for e in force}
+        w = self.w
+
+        def pure(block, what):
+            o = origins(w, w.blocks[block]["t"]["o"])
+            if what == "needs":
+                return all(d[0] == "call" and d[1] == self.gate.path for d in o)
+            return all(d[0] in ("arg", "call") and "force_build" in d[-1] for d in o)
+        return ([e for e in needs if e[0] not in both and pure(e[0], "needs")],
+                [e for e in force if e[0] not in both and pure(e[0], "force")])
+
     def sites_with(self, eff, direct=False):
         k = "direct" if direct else "eff"
         return [s for s in self.sites if eff in s[k]]
